@@ -277,6 +277,12 @@ def run_cases(ctx, drv, cases, jobs=14, per_proc=12, timeout=600, leaks=False, s
                 if r2.rc == 3:
                     raise tlc.ModelError("dec_drv rejected its script: " + r2.err[-500:])
                 crashes.append((eid, r2.why()))
+                # a leak is only reported when the process exits: the execution itself is complete and is
+                # still validated
+                if "LeakSanitizer" in r2.err and "AddressSanitizer:" not in r2.err.replace("SUMMARY: AddressSanitizer", ""):
+                    ch = split(p2, 1)
+                    if ch:
+                        res.append((eid, ch[0]))
             if os.path.exists(p2):
                 os.unlink(p2)
         return res, crashes
